@@ -14,6 +14,12 @@ from .interp import Exec, _loops_of
 from .source import Repo
 
 
+RLIMIT_PER_MS = 6000
+
+
+from .engine import guarded_check  # noqa: E402
+
+
 class FunctionReport:
     def __init__(self, qualname):
         self.qualname = qualname
@@ -162,6 +168,9 @@ class Engine:
             # beyond 2^64: only the halving step (x pow2 and x > 1  =>  x even and x/2 pow2) and doubling
             path.assume(z3.Implies(z3.And(t, x > 1), z3.And(x % 2 == 0, p(x / 2))))
             path.assume(z3.Implies(z3.And(x >= 1, p(x)), p(2 * x)))
+            # a power of two that is at least 2^14 is a multiple of 2^14 (2^a | 2^b for a <= b): exact below 2^64 by the
+            # enumeration above; stated for all x (Lean core: Nat.pow_dvd_pow)
+            path.assume(z3.Implies(z3.And(t, x >= 16384), z3.And(x % 16384 == 0, p(x / 16384))))
             self.assumption("is_pow2: exact on 1..2^64 (enumerated); above 2^64 only the halving/doubling steps "
                             "are available to the solver")
         return t
@@ -255,6 +264,9 @@ class Engine:
                 self.verify_variant(info, c, var, vi, rep)
         except Unsupported as u:
             rep.status, rep.reason = "unsupported", str(u)
+            if os.environ.get("PYVC_TB"):
+                import traceback
+                traceback.print_exc()
         except ContractError as u:
             rep.status, rep.reason = "contract-error", str(u)
         except z3.Z3Exception as u:
@@ -324,7 +336,7 @@ class Engine:
             p.assume(p.eval_contract_expr(expr))
         # vacuity guard: the precondition must be satisfiable
         if p.dpos == 0 and not p.decisions:
-            if p.solver.check() == z3.unsat:
+            if guarded_check(p.solver, 2000) == z3.unsat:
                 ob = p.oblige("requires-satisfiable", "vacuity", z3.BoolVal(False), c.props)
                 ob.pc = []
                 return
@@ -343,6 +355,12 @@ class Engine:
             env["result"] = val
             if info.is_generator:
                 pass
+            for ex in c.extra.get("post_lemmas", []):
+                # ground instances of valid arithmetic / spec-function facts about the final values (listed as assumptions)
+                try:
+                    p.assume(p.eval_contract_expr(ex))
+                except ContractError:
+                    pass        # a name the lemma mentions is unbound on this path: no instance here
             for j, cl in enumerate(c.all_ensures(p.variant)):
                 props, lab, expr = p._clause(cl, p.func_stack[-1])
                 p.oblige(lab or f"ensures{j}", "post", p.eval_contract_expr(expr), props)
@@ -406,11 +424,15 @@ class Engine:
             return time.time() - t0 > budget
         s = z3.Solver()
         seqish = any(k in str(ob.goal) for k in ("Concat", "seq.", "rest(", "Length"))
-        s.set("timeout", min(self.timeout_ms, 3000) if (seqish or ob.kind == "canary") else self.timeout_ms)
+        t_first = min(self.timeout_ms, 3000) if (seqish or ob.kind == "canary") else self.timeout_ms
+        s.set("timeout", t_first)
+        s.set("rlimit", t_first * RLIMIT_PER_MS)      # z3's wall-clock timeout is not honoured inside some sequence-solver loops
+        if getattr(ob, "z3_seed", 0):
+            s.set("random_seed", ob.z3_seed)
         for a in ob.pc:
             s.add(a)
         s.add(z3.Not(ob.goal))
-        r = s.check()
+        r = guarded_check(s, t_first)
         ob.backend = "z3"
         if ob.kind == "canary" and r == z3.unknown:
             ob.verdict = "unknown"           # a canary only has to be satisfiable somewhere; no portfolio for it
@@ -429,55 +451,45 @@ class Engine:
             # Relevance portfolio: any subset of the path condition that already yields unsat is a proof (fewer assumptions).
             # The sequence solvers are easily derailed by irrelevant facts (element-access side conditions, length
             # facts of zero blocks), so a few syntactic filters are tried before the other back ends.
-            texts = None
+            texts = [str(a) for a in ob.pc]
+            cands = []
             for label, drop in (("-nth", ("seq.nth", "nth_i", "nth_u")), ("-zeros", ("zeros(",)), ("-nth-zeros", ("seq.nth", "nth_i", "nth_u", "zeros(")),
                                 ("-nth-zeros-kind", ("seq.nth", "nth_i", "nth_u", "zeros(", "fs_kind"))):
+                sub = [a for a, t in zip(ob.pc, texts) if not any(d in t for d in drop)]
+                if len(sub) != len(ob.pc):
+                    cands.append((sub, label))
+            # cone-of-influence subsets: assertions reachable from the goal's symbols in k rounds, ignoring symbols that
+            # occur almost everywhere (they connect everything with everything)
+            cands.extend(self.coi_subsets(ob))
+            solvers = []
+            # pass 1: the in-process z3 on every subset (cheap); pass 2: the other back ends on the same subsets
+            for sub, label in cands:
                 if spent():
                     break
-                if texts is None:
-                    texts = [str(a) for a in ob.pc]
-                sub = [a for a, t in zip(ob.pc, texts) if not any(d in t for d in drop)]
-                if len(sub) == len(ob.pc):
-                    continue
                 s2 = z3.Solver()
                 s2.set("timeout", max(2000, self.timeout_ms // 3))
+                s2.set("rlimit", max(2000, self.timeout_ms // 3) * RLIMIT_PER_MS)
                 for a in sub:
                     s2.add(a)
                 s2.add(z3.Not(ob.goal))
-                if s2.check() == z3.unsat:
+                solvers.append((s2, label))
+                if guarded_check(s2, max(2000, self.timeout_ms // 3)) == z3.unsat:
                     ob.verdict, ob.backend = "unsat", "z3" + label
                     break
-                if use_cvc5:
+            if ob.verdict == "unknown" and use_cvc5:
+                for s2, label in solvers:
+                    if spent():
+                        break
                     for name, fn in (("z3-4.8.12", run_z3_old), ("cvc5", run_cvc5)):
                         if fn(s2, max(2000, self.timeout_ms // 3)) == "unsat":
                             ob.verdict, ob.backend = "unsat", name + label
                             break
                     if ob.verdict == "unsat":
                         break
-            if ob.verdict == "unknown":
-                # cone-of-influence subsets: assertions reachable from the goal's symbols in k rounds, ignoring symbols that
-                # occur almost everywhere (they connect everything with everything)
-                for sub, label in self.coi_subsets(ob):
-                    if spent():
-                        break
-                    s2 = z3.Solver()
-                    s2.set("timeout", max(2000, self.timeout_ms // 3))
-                    for a in sub:
-                        s2.add(a)
-                    s2.add(z3.Not(ob.goal))
-                    if s2.check() == z3.unsat:
-                        ob.verdict, ob.backend = "unsat", "z3" + label
-                        break
-                    if use_cvc5:
-                        for name, fn in (("z3-4.8.12", run_z3_old), ("cvc5", run_cvc5)):
-                            if fn(s2, max(2000, self.timeout_ms // 3)) == "unsat":
-                                ob.verdict, ob.backend = "unsat", name + label
-                                break
-                        if ob.verdict == "unsat":
-                            break
             if ob.verdict == "unknown" and seqish and not spent():
                 s.set("timeout", self.timeout_ms)
-                r2 = s.check()
+                s.set("rlimit", self.timeout_ms * RLIMIT_PER_MS)
+                r2 = guarded_check(s, self.timeout_ms)
                 if r2 == z3.unsat:
                     ob.verdict, ob.backend = "unsat", "z3"
                 elif r2 == z3.sat:
